@@ -217,6 +217,7 @@ type world struct {
 	hid        int
 	cs         *caseSpec
 	E          int // the measured epoch
+	anchor     int // key of a bystander identity that is validated in every epoch (0 = none)
 	n          int // identities 1..n
 	pool       int // key of the pool address (0 = none)
 	ext        int // key of the address without identity that may serve as pool
@@ -304,6 +305,11 @@ func newWorld(seed int64, hid int, cs *caseSpec, out *tr.W, st *runStats) *world
 	sw.FirstCeremony = 1693666800
 	E := measuredEpoch(cs)
 	w := &world{w: sw, rnd: rnd, out: out, hid: hid, cs: cs, n: n, ext: n + 1, stran: n + 2, stats: st, nonce: map[int]uint32{}, E: E}
+	if n == 1 && cs.Id%4 != 0 {
+		// a validation in which nobody is validated FAILS (nothing is applied, nothing is paid): three of four one-identity
+		// worlds get a bystander that is validated in every epoch, so that the identity's own failure is a failure among others
+		w.anchor = n + 3
+	}
 	if cs.Pool > 0 {
 		w.pool = cs.Pool
 	} else {
@@ -364,6 +370,9 @@ func newWorld(seed int64, hid int, cs *caseSpec, out *tr.W, st *runStats) *world
 			a.Stake = w.stakeOf(cs.Ids[i-1].Stake)
 		}
 		sw.Allocs = append(sw.Allocs, a)
+	}
+	if w.anchor > 0 {
+		sw.Allocs = append(sw.Allocs, sim.Alloc{Key: w.anchor, State: state.Verified, Balance: sim.Dna(1234, 1), Stake: w.stakeOf(2)})
 	}
 	sw.Allocs = append(sw.Allocs, sim.Alloc{Key: w.ext, State: state.Undefined, Balance: sim.Dna(777, 1)})
 	sw.Allocs = append(sw.Allocs, sim.Alloc{Key: w.stran, State: state.Undefined, Balance: sim.Dna(555, 1)})
@@ -580,6 +589,7 @@ type epochIn struct {
 	flips   []flipIn
 	results map[common.ShardId]*types.ValidationResults
 	measure bool
+	failed  bool // nobody is validated: the validation fails, nothing is applied and nothing is paid
 }
 
 var gradeOfCoef = map[int]types.Grade{1: types.GradeD, 2: types.GradeC, 4: types.GradeB, 8: types.GradeA}
@@ -629,6 +639,9 @@ func (w *world) inject(height uint64, epoch int) *epochIn {
 		}
 		in.cands[i] = c
 	}
+	if w.anchor > 0 {
+		in.cands[w.anchor] = ceremony.VerifCandidateResult{Addr: w.w.Addrs[w.anchor], State: uint8(state.Verified), ShortFlipPoint: 5, ShortQualifiedFlipsCount: 6, Participated: true}
+	}
 	if epoch == w.E {
 		for i := 1; i <= w.n; i++ {
 			id := cs.Ids[i-1]
@@ -651,6 +664,12 @@ func (w *world) inject(height uint64, epoch int) *epochIn {
 			}
 		}
 		w.rnd.Shuffle(len(in.flips), func(a, b int) { in.flips[a], in.flips[b] = in.flips[b], in.flips[a] })
+	}
+	in.failed = true
+	for _, c := range in.cands {
+		if state.IdentityState(c.State).NewbieOrBetter() {
+			in.failed = false
+		}
 	}
 	var cands []ceremony.VerifCandidateResult
 	var order []int
@@ -813,6 +832,9 @@ func (w *world) record(in *epochIn, height uint64, blk *types.Block, pre *sim.Le
 		keys = append(keys, i)
 	}
 	keys = append(keys, w.ext, w.stran)
+	if w.anchor > 0 {
+		keys = append(keys, w.anchor)
+	}
 	flipsOf := func(i int, class string) int {
 		c := 0
 		for _, f := range in.flips {
@@ -835,7 +857,7 @@ func (w *world) record(in *epochIn, height uint64, blk *types.Block, pre *sim.Le
 		if p0.Inviter != nil {
 			m["inviter"] = w.name(p0.Inviter.Address)
 		}
-		if c, ok := in.cands[k]; ok && k >= 1 && k <= w.n {
+		if c, ok := in.cands[k]; ok {
 			m["cand"], m["new"], m["missed"] = true, int(c.State), c.Missed
 			m["good"], m["rep"], m["nq"] = flipsOf(k, "good"), flipsOf(k, "rep"), flipsOf(k, "nq")
 			var coefs []int
@@ -895,7 +917,7 @@ func (w *world) record(in *epochIn, height uint64, blk *types.Block, pre *sim.Le
 			"flipsBasic": rate(cons.FlipRewardBasicPercent), "flipsExtra": rate(cons.FlipRewardExtraPercent), "invitations": rate(cons.ValidInvitationRewardPercent),
 			"reports": rate(cons.ReportsRewardPercent), "foundation": rate(cons.FoundationPayoutsPercent), "zero": rate(cons.ZeroWalletPercent)},
 		"rate": []int{rate(cons.StakeRewardRate), rate(cons.StakeRewardRateForNewbie)}, "unlockAge": int(cons.UnlockStakeAge),
-		"failed": !rec.results}
+		"failed": in.failed}
 	w.out.Emit(line)
 	// one line per real step of rewardValidIdentities, in the code's order
 	steps := []struct {
